@@ -18,3 +18,4 @@ ASSUMPTIONS = ["re.finditer semantics; ET.TreeBuilder builds the tree it is told
 def run(project, rep):
     rep.run(P.x_rules, project, rep)
     rep.run(P.p_rules, project, rep)
+    rep.run(P.p_r6_every_match_dispatched, project, rep)
